@@ -16,7 +16,7 @@ func CheckDecode(s string) (b []byte, err error) {
 		return nil, err
 	}
 
-	if len(b) < 5 {
+	if len(b) < 4 {
 		return nil, errors.New("invalid base-58 check string: missing checksum")
 	}
 
